@@ -103,6 +103,11 @@ DIRECTED = [
     # packed tables without flex grouping: the groups were already charged for tables of their own (thorough-tier finding, fixed)
     (["-t", "ext4", "-b", "1024", "-G", "1"], ["packed_meta_blocks=1"], 65536),
     (["-t", "ext4", "-b", "4096", "-G", "1", "-O", "^metadata_csum,uninit_bg"], ["packed_meta_blocks=1"], 224919),
+    # two groups, one sparse_super2 backup in the short last group, a large reserved GDT: the tail-group trimming has to count it
+    (["-t", "ext4", "-b", "1024", "-i", "16384", "-O", "sparse_super2"], ["resize=4294967295", "num_backup_sb=1"], 8320),
+    (["-t", "ext4", "-b", "1024", "-i", "16384", "-O", "sparse_super2,^flex_bg"], ["resize=4294967295", "num_backup_sb=1"], 8400),
+    # dense inodes under flex_bg: packed inode tables that straddle a group boundary
+    (["-t", "ext4", "-b", "1024", "-i", "1024", "-G", "16"], [], 131072),
     # RAID stride without flex_bg: the staggered bitmap position walks through every offset of a group, the last block included
     (["-t", "ext2", "-b", "1024", "-I", "128", "-N", "40800"], ["stride=496"], 163841),
     (["-t", "ext2", "-b", "1024", "-g", "1024"], ["stride=7"], 262144),
@@ -119,6 +124,28 @@ def gen_config(r, idx=None):
         if "-O" in opts:
             feats = opts[opts.index("-O") + 1].split(",")
         return {"opts": list(opts), "ext": list(ext), "size_k": size_k, "bs": int(opts[opts.index("-b") + 1]), "type": opts[1], "feats": feats}
+    fam = r.random()
+    if fam < 0.07:
+        # family: a short last group that has to hold (or not) a sparse_super2 backup, with a reserved GDT of any size
+        bs = r.choice([1024, 1024, 2048])
+        bpg = 8 * bs
+        ng = r.choice([2, 2, 3, 5])
+        size_k = ((ng - 1) * bpg + (1 if bs == 1024 else 0) + r.randint(20, 900)) * bs // 1024
+        ext = ["num_backup_sb=%d" % r.choice([0, 1, 1, 2])]
+        if r.random() < 0.7:
+            ext.append("resize=%d" % r.choice([4294967295, 1 << 24, 1 << 20, 40000]))
+        feats = ["sparse_super2"] + (["^flex_bg"] if r.random() < 0.4 else []) + (["^64bit"] if r.random() < 0.3 else [])
+        opts = ["-t", "ext4", "-b", str(bs), "-O", ",".join(feats)] + (["-i", str(r.choice([4096, 16384, 65536]))] if r.random() < 0.6 else [])
+        return {"opts": opts, "ext": ext, "size_k": size_k, "bs": bs, "type": "ext4", "feats": feats}
+    if fam < 0.14:
+        # family: dense inodes and a flex_bg size large enough for packed inode tables to cross group boundaries
+        bs = r.choice([1024, 1024, 2048, 4096])
+        opts = ["-t", "ext4", "-b", str(bs), "-i", str(r.choice([bs, bs, 2 * bs, 4 * bs])), "-G", str(r.choice([8, 16, 32, 64]))]
+        if r.random() < 0.3:
+            opts += ["-I", str(r.choice([128, 256, 512]))]
+        if r.random() < 0.3:
+            opts += ["-g", str(8 * r.randint(bs // 4, bs))]
+        return {"opts": opts, "ext": [], "size_k": r.randint(60000, 300000), "bs": bs, "type": "ext4", "feats": []}
     t = r.choice(["ext2", "ext3", "ext4", "ext4", "ext4"])
     bs = r.choice([1024, 1024, 2048, 4096, 4096])
     k = r.random()
